@@ -4,6 +4,7 @@ import gv
 PROP = "C09"
 REQ_PROPS = ["GV.Props.Props_C09"]
 REQ_RUN = ["GV.Query.RunOpt"]
+BINS = ["c09"]
 
 TRUSTED = [
     "Coq 8.16.1 kernel (coqc; vm_compute used to run the model; no native_compute)",
@@ -15,7 +16,8 @@ TRUSTED = [
     "harness/src/bin/c09.rs (query/graph/plan generators, rendering to GQL, dumping plans and rows as Coq terms, the 8x3 oracle), lib/gv.py, checks/c09.py",
 ]
 
-KIDS = {1: "C09-K1", 2: "C09-K2", 3: "C09-K3", 4: "C09-K4"}
+# C09-K3 (class 3, stacked filters) was repaired by df57ccb: the class no longer exists in k_class_g
+KIDS = {1: "C09-K1", 2: "C09-K2", 4: "C09-K4", 5: "C09-K5"}
 
 
 _coq_eval = gv.coq_eval
@@ -31,8 +33,9 @@ gv.coq_eval = _coq_eval_sharded
 
 
 def classify(cases):
-    """The harness marks an oracle failure with kcoq = `k_class b afters` (a number decided in Coq:
-    0 none, 1 push scope, 2 reorder, 3 stacked filters, 4 edge property above a join).  Turn it into
+    """The harness marks an oracle failure with kcoq = `k_class_g G b afters` (a number decided in Coq:
+    0 none, 1 push scope, 2 reorder, 4 edge property above a join, 5 two-hop chain with a hop that
+    matches nothing).  Turn it into
     the finding id + a boolean class term, which is what gv.standard_flow decides on."""
     idx = [i for i, c in enumerate(cases) if c.get("oracle") == "fail" and c.get("kcoq")]
     if not idx:
@@ -86,7 +89,8 @@ def run(tier, seed):
     chk.coverage["trusted_base"] = TRUSTED
     chk.coverage["harness_seconds"] = round(dt, 1)
     chk.assumptions = [
-        "results fit one 2048-row chunk (sem_e models the Filter-on-Filter behaviour per chunk); generated graphs keep every intermediate result far below that",
+        "sem_e models the selection-vector behaviour of FilterOperator for results that fit one 2048-row chunk (generated graphs keep every intermediate "
+        "result far below that); since df57ccb it is proved equal to sem for every plan (engine_filters_agree)",
         "rows are compared as multisets, as sequences only under ORDER BY on a total key; queries with SKIP/LIMIT, OPTIONAL MATCH, two-hop patterns "
         "(factorized chain operator) or an edge property above a join are checked by the plan correspondence and the 24-run oracle only, not against sem_e",
         "no explicit transactions, labelled scans only (the store-epoch defect of C01 is kept out)",
